@@ -9,6 +9,7 @@ rm -rf "$W"
 mkdir -p "$W"
 ( cd "$W" && coqc -Q ../../../coq SQV "../../$NAME/Extract.v" > extract.log 2>&1 ) || { cat "$W/extract.log"; exit 1; }
 rm -f "$NAME"/Extract.vo "$NAME"/Extract.glob "$NAME"/.Extract.aux "$NAME"/Extract.vok "$NAME"/Extract.vos
-cp util.ml "$NAME/driver.ml" "$W/"
-( cd "$W" && ocamlfind ocamlopt -O2 -w -a model.mli model.ml util.ml driver.ml -o "../$NAME.exe" 2>/dev/null \
-  || ocamlfind ocamlopt -w -a model.mli model.ml util.ml driver.ml -o "../$NAME.exe" )
+cp util.ml "$NAME"/*.ml "$W/"
+EXTRA=$(cd "$NAME" && ls *.ml | grep -v "^driver.ml$" | sort -r | tr "\n" " ")
+( cd "$W" && ocamlfind ocamlopt -O2 -w -a model.mli model.ml util.ml $EXTRA driver.ml -o "../$NAME.exe" 2>/dev/null \
+  || ocamlfind ocamlopt -w -a model.mli model.ml util.ml $EXTRA driver.ml -o "../$NAME.exe" )
